@@ -11,7 +11,10 @@ META = {
              "therefore NOT a theorem: it is tied by the correspondence harness, which fingerprints (sha256 of the bytes, shape, dtype, identity of the array objects held by the TimeSeries, index "
              "arrays of the signal mapping, parameter value/nominal/bounds, new_times, the delay dict) every input before and after every call of apply_bias, apply_gain, apply_delay, "
              "apply_time_window, apply_delayed_ts_window, apply_resample_and_delay, TimeSeries.resample and TimeSeries.interpolate (linear and zero-order hold) on the cases of the run, for "
-             "C- and Fortran-ordered data; any change is an implementation violation. Aliasing of a result with its input (views) is recorded but is not a violation. "
+             "C- and Fortran-ordered data; any change is an implementation violation. The same is done for SignalTransform.apply() with every subset of {gain, bias, delay} registrations on the "
+             "targets predicted / measured / both (matching and non-matching patterns): BOTH input series, the larger caller arrays that the measured series views, the mappings and all parameters "
+             "are fingerprinted before and after, apply() is called three times and must return identical residuals and series each time, and its result must equal the composition of the "
+             "standalone modifiers (apply_delayed_ts_window, apply_resample_and_delay / resample, apply_gain, apply_bias, weighted difference, normalisation) on fresh copies. Aliasing of a result with its input (views) is recorded but is not a violation. "
              "Proved in Coq over the real numbers (Props/C48.v): linear interpolation lies between the two neighbouring samples (C48_lerp_within_neighbours) and, for every strictly increasing series "
              "with >= 2 samples and every t in its time range, the samples used are adjacent, bracket t and bound the result (C48_interp_within_neighbours); outside the range the first / last "
              "sample is returned (C48_interp_outside_range); resampling at the original timestamps returns the original data (C48_resample_identity); resampling with columns grouped by delay "
@@ -21,7 +24,7 @@ META = {
              "the same order); independent oracles on the implementation output: grouped == column-by-column exactly (np.array_equal against _apply_resample_and_delay_columnwise), identity "
              "at the original timestamps exactly, interpolated values within the neighbours' range up to 4 ulp (the two weights are rounded separately, so over binary64 the bound holds only up "
              "to rounding), window = exactly the rows with min_t <= t <= max_t, bias/gain touch exactly the named columns. "
-             "Not covered: interpolation kinds other than linear / zero-order hold (scipy splines), resample(target_dt=...), TimeSeries constructors from MuJoCo models, SignalTransform.apply; "
+             "Not covered: interpolation kinds other than linear / zero-order hold (scipy splines), resample(target_dt=...), TimeSeries constructors from MuJoCo models, SignalTransform.enable_sensors / sensor weights (need an MjModel); "
              "scipy.interpolate.interp1d is modelled by the formula of its _call_linear (scipy 1.18), not derived from its source."),
     "note": ("Trusted: Coq kernel + std-lib real-number axioms; PrimFloat for running the model; hand-written model Model/TimeSeries.v; numpy / scipy.interpolate.interp1d of /venv as library "
              "dependencies of the code under test; the mujoco wheel only for `import mujoco`; stand-ins for the missing colorama/tabulate/yaml imports of parameter.py; the fingerprinting driver "
@@ -104,6 +107,55 @@ def gen_cases(ctx):
     return cases
 
 
+def gen_transform_cases(ctx):
+    """SignalTransform.apply: every subset of {gain, bias, delay} registrations x targets predicted / measured / both,
+    matching and non-matching patterns, the measured series being a view into a larger caller array"""
+    import itertools
+    rng = ctx.rng
+    quick = ctx.tier == "quick"
+    cases = []
+    targets = ("predicted", "measured", "both")
+    reps = 2 if quick else 12
+    first = True
+    for rep in range(reps):
+        for use_gain, use_bias, use_delay in itertools.product((False, True), repeat=3):
+            for tg in targets:
+                for tb in (targets if (use_gain and use_bias) else (tg,)):
+                    if first:
+                        npred, nmeas, d = 6, 3, 1; dtp = 0.1
+                    else:
+                        npred = rng.randint(8, 30); d = rng.randint(1, 5); dtp = rng.choice([0.01, 0.05, 0.1])
+                        nmeas = rng.randint(2, max(2, npred // 2))
+                    ptimes = [i * dtp for i in range(npred)]
+                    span = ptimes[-1]
+                    m0 = 0.25 * span + (0.0 if first else rng.uniform(0, 0.1 * span)); dtm = (0.4 * span) / max(nmeas - 1, 1)
+                    mtimes = [m0 + i * dtm for i in range(nmeas)]
+                    pdata = [[rng.uniform(-3, 3) for _ in range(d)] for _ in range(npred)]
+                    mdata = [[rng.uniform(-3, 3) for _ in range(d)] for _ in range(nmeas)]
+                    left = list(range(d)); mapping = []; k = 0
+                    while left:
+                        w = rng.randint(1, min(2, len(left))); mapping.append(["s%d" % k, left[:w]]); left = left[w:]; k += 1
+                    pats = ["s0", "s*", "*", "s%d" % (len(mapping) - 1)] + ([] if first else ["zz*"])
+                    c = {"op": "transform", "ptimes": ptimes, "pdata": pdata, "mtimes": mtimes, "mdata": mdata, "mapping": mapping,
+                         "normalize": (rep + int(use_gain)) % 2 == 1, "pad": rng.choice([0, 2, 3]) if not first else 2, "fortran": (not first) and rng.random() < 0.2,
+                         "gains": [], "biases": [], "delays": []}
+                    if use_gain:
+                        c["gains"] = [[rng.choice(pats), rng.uniform(0.5, 2.0), tg] for _ in range(1 if first else rng.randint(1, 2))]
+                    if use_bias:
+                        c["biases"] = [[rng.choice(pats) if not first else "s0", rng.uniform(-1, 1) if not first else 0.25, tb] for _ in range(1 if first else rng.randint(1, 2))]
+                        if c["biases"][0][0] == "zz*":
+                            c["biases"][0][0] = "s0"      # at least one bias matches a sensor
+                    if use_delay:
+                        for _ in range(1 if first else rng.randint(1, 2)):
+                            v = rng.uniform(0, 0.05 * span)
+                            c["delays"].append([rng.choice(pats), v, min(v, 0.0) - (0.0 if first else rng.uniform(0, 0.03 * span)), v + rng.uniform(0, 0.03 * span)])
+                    cases.append(c)
+                    first = False
+    # the smallest bias-only / measured case first
+    cases.sort(key=lambda c: 0 if (c["biases"] and not c["gains"] and not c["delays"] and len(c["ptimes"]) == 6) else 1)
+    return cases
+
+
 def transpose(rows, ncol):
     return [[r[j] for r in rows] for j in range(ncol)]
 
@@ -173,8 +225,12 @@ Definition run_case (c : (Z * list float * list (list float)) * (list nat * list
 def run(ctx):
     ctx.coq_props(allowed_axioms=F.STD_AXIOMS, extra_targets=["Lib/NumF.vo", "Model/TimeSeries.vo"])
     cases = gen_cases(ctx)
+    tcases = gen_transform_cases(ctx)
     if ctx.replay and isinstance(ctx.replay.get("case"), dict) and ctx.replay["case"].get("case"):
-        cases = [ctx.replay["case"]["case"]] + cases[:3]
+        rc = ctx.replay["case"]["case"]
+        cases, tcases = ([cases[0]], [rc]) if rc.get("op") == "transform" else ([rc] + cases[:3], tcases[:1])
+    ntr = len(tcases)
+    cases = cases + tcases
     r = subprocess.run([PY, os.path.join(DRV, "c48_ts.py"), ctx.repo], input=json.dumps({"cases": cases}), capture_output=True, text=True, timeout=900)
     if r.returncode != 0:
         ctx.broken.append(("correspondence", "python driver c48_ts.py failed", (r.stderr or r.stdout)[-1500:]))
@@ -193,6 +249,38 @@ def run(ctx):
         if emitted[key] <= 2:
             ctx.violation("impl_violation", {"case": case, "what": cls}, expected=expected, observed=observed, theorem=theorem,
                           signature={"site": site, "class": cls})
+
+    # ---- SignalTransform.apply: purity of both input series, idempotence of repeated calls, composition of the modifiers
+    tstats = {"calls": 0, "modified": 0, "not_idempotent": 0, "errors": 0, "by_registration": {}}
+    for i in sorted(range(len(cases) - ntr, len(cases)), key=lambda i: (len(cases[i]["ptimes"]) * len(cases[i]["pdata"][0]), i)):
+        c, rec = cases[i], res[i]
+        site = "SignalTransform.apply"
+        tstats["calls"] += 1
+        key = "+".join(n for n, l in (("gain", c["gains"]), ("bias", c["biases"]), ("delay", c["delays"])) if l) or "none"
+        tstats["by_registration"][key] = tstats["by_registration"].get(key, 0) + 1
+        mod = sorted(set(rec.get("modified", [])) | set(rec.get("modified_after_repeats", [])))
+        if mod:
+            tstats["modified"] += 1
+            viol(site, "input_modified_in_place", c, "both input series, the arrays they view, their mappings and the parameters unchanged after apply()",
+                 {"modified_after_first_call": rec.get("modified"), "modified_after_three_calls": rec.get("modified_after_repeats"),
+                  "measured_result_aliases_caller_array": rec.get("alias_measured")}, "purity (tied by fingerprinting, not a theorem)")
+        if "error" in rec:
+            tstats["errors"] += 1
+            if not rec.get("reference_error"):
+                viol(site, "unexpected_exception", c, "a residual", rec["error"], "correspondence")
+            continue
+        if not rec.get("idempotent"):
+            tstats["not_idempotent"] += 1
+            viol(site, "repeated_apply_differs", c, {"first_call_residual": rec.get("residual")}, {"third_call_residual": rec.get("residual_third_call")},
+                 "purity (tied by fingerprinting, not a theorem)")
+        if rec.get("outputs_are_inputs"):
+            viol(site, "returns_the_input_series", c, "new series", "an input object was returned", "purity (tied by fingerprinting, not a theorem)")
+        if rec.get("reference_error") is None and rec.get("equals_composition") is False:
+            viol(site, "differs_from_composition_of_modifiers", c, {"residual_of_composed_standalone_modifiers": rec.get("reference_residual")},
+                 {"residual": rec.get("residual")}, "correspondence")
+    ctx.cov["support"]["signal_transform_apply"] = tstats
+    cases_all, res_all = cases, res
+    cases, res = cases[:len(cases) - ntr], res[:len(res) - ntr]
 
     order = sorted(range(len(cases)), key=lambda i: (len(cases[i]["times"]) * len(cases[i]["data"][0]), i))
     for i in order:
@@ -277,7 +365,7 @@ def run(ctx):
         ctx.violation("correspondence", {"case": cases[i]}, expected="model output (Model/TimeSeries.v at binary64, exact)",
                       observed={k2: res[i].get(k2) for k2 in ("times", "data", "array", "delays", "error")}, found_input=False, theorem="correspondence c48",
                       note="implementation and Coq model disagree on this input, but the implementation output satisfies the oracles")
-    ctx.cov["evaluations"] = len(cases)
+    ctx.cov["evaluations"] = len(cases_all)
     ctx.cov["distinct_nontrivial"] = sum(1 for c in cases if len(c["times"]) >= 3 and len(c["data"][0]) >= 2)
     ctx.cov["rule"] = ("random strictly increasing time stamps (uniform grids and irregular), 1..9 samples x 1..6 columns, C- and Fortran-ordered data, signal mappings that partition the columns "
                        "(contiguous and shuffled index arrays); bias/gain with scalar and per-column values; delays positive/negative/zero/one sample period; windows with end points on and "
